@@ -557,3 +557,37 @@ def run(ctx, rep, tier):
     _values_and_names_in_c(ctx, rep, tier)
     from .shared import delegate
     delegate(ctx, rep, tier, "C18", ("C18.r",), "C11.q", "every value of the generation options yields code: range collapsing does not index an empty symbol list (--collapsed-range-length 0)")
+
+
+# ---------------------------------------------------------------------------------------------------------------- C11.s
+def _append_is_sequenced(ctx, rep, tier):
+    """C11.s (F-103): the appended value of `s += [expr]` may read the length or the contents of the very buffer it is appended to (`s += [s.len + '0']`, `s += [s[0]]`).
+    Emitted as `buf[counter++] = (T)(value)` the read of the counter in the value is unsequenced with the increment: undefined behaviour, refused by gcc -Wall -Werror
+    (-Wsequence-point), and in practice a different byte with and without -fstrings-as-u8. The store and the count have to be two statements."""
+    rep.rule("C11.s", "an append stores its value at the current length and counts the length in a separate statement (the value may read that length)")
+    n = 0
+    for cl in ("AppendTo", "AppendCharTo"):
+        fp = ctx.emit.enumerate("CodegenCtx._generate_action_implementation", classes={"action": cl})
+        for p in fp.paths:
+            if p.end and p.end[0] == "raise":
+                continue
+            evs = events_of(fp.lines(p))
+            for i, e in enumerate(evs):
+                if e.kind == "WRITE" and e.b == "counter++":
+                    n += 1
+                    j = i + 1
+                    while j < len(evs) and evs[j].kind in ("COUNTER_OF", "RAWVIEW"):
+                        j += 1
+                    ok = j < len(evs) and evs[j].kind == "APPEND_SPLIT"
+                    rep.check(ok, "C11.s", "CodegenCtx._generate_action_implementation", f"{cl}: store, then count",
+                              f"{cl}'s template emits `{e.text.strip()[:90]}`: the stored value is evaluated in the same expression that increments the length it may read "
+                              "(`s += [s.len]`): unsequenced - gcc -Wall -Werror refuses the file (-Wsequence-point) and the stored byte depends on -fstrings-as-u8")
+    rep.check(n >= 2, "C11.s", "CodegenCtx._generate_action_implementation", f"{n} append stores examined", "append stores not found in the templates")
+
+
+_run_s11 = run
+
+
+def run(ctx, rep, tier):
+    _run_s11(ctx, rep, tier)
+    _append_is_sequenced(ctx, rep, tier)
